@@ -755,7 +755,15 @@ def _run(ctx, exe, quick, rnd, mc_info):
         raise vlib.Infra('design model / driver drift (%d lines), e.g. %s in scenario %s: %s' % (len(drift), w, sid, json.dumps(l)[:600]))
     reproduced = 0
     unreproduced = []
-    for sid in sorted(bad):
+    # when very many scenarios are rejected (a defect on a hot path) only a few of each kind are re-run alone
+    chosen, per_cat = [], {}
+    for sid in sorted(bad, key=lambda x: (x not in pinned_ids, len(bad[x]), x)):
+        cat = (by_id[sid]['kind'], tuple(sorted(set(w for _, w in bad[sid]))))
+        if sid in pinned_ids or (per_cat.get(cat, 0) < 2 and len(chosen) < 10 + len(pinned_ids)):
+            per_cat[cat] = per_cat.get(cat, 0) + 1
+            chosen.append(sid)
+    ctx.coverage['rejected_scenarios_retried'] = len(chosen)
+    for sid in chosen:
         sc = by_id[sid]
         whys0 = sorted(set(w for _, w in bad[sid]))
         for l, w in bad[sid]:
